@@ -189,6 +189,10 @@ class FakeFile(io.RawIOBase):
         pass
 
 
+_GLOBAL_FD = itertools.count(1000)  # fd numbers are unique across FakeOS instances: a stale descriptor held by an
+#                                      object of an earlier path (e.g. FileLock.__del__) can never alias a live one
+
+
 class FakeOS:
     O_RDONLY = 0
     O_WRONLY = 1
@@ -215,7 +219,7 @@ class FakeOS:
         self.world = world
         self.root = Inode("dir")
         self.fds = {}
-        self.next_fd = itertools.count(3)
+        self.next_fd = _GLOBAL_FD
         self.tmpctr = itertools.count(1)
         self.cwd = "/cwd"
         self.flocks = {}  # ino -> (ofd id, owner)
@@ -412,6 +416,7 @@ class FakeOS:
         return self.fds[fd]
 
     def write(self, fd, data):
+        self._ofd(fd)  # stale / foreign descriptors fail before becoming a step
         self._pt("write", fd=fd, path=self.fds[fd].path if fd in self.fds else "?")
         ofd = self._ofd(fd)
         data = bytes(data)
@@ -426,6 +431,7 @@ class FakeOS:
         return len(data)
 
     def read(self, fd, n=-1):
+        self._ofd(fd)  # stale / foreign descriptors fail before becoming a step
         self._pt("read", fd=fd, path=self.fds[fd].path if fd in self.fds else "?")
         ofd = self._ofd(fd)
         d = ofd.inode.data[ofd.pos:] if n is None or n < 0 else ofd.inode.data[ofd.pos:ofd.pos + n]
@@ -441,6 +447,7 @@ class FakeOS:
         return ofd.pos
 
     def fsync(self, fd):
+        self._ofd(fd)  # stale / foreign descriptors fail before becoming a step
         self._pt("fsync", fd=fd, path=self.fds[fd].path if fd in self.fds else "?")
         ofd = self._ofd(fd)
         if ofd.isdir:
@@ -454,6 +461,7 @@ class FakeOS:
     fdatasync = fsync
 
     def close(self, fd):
+        self._ofd(fd)  # stale / foreign descriptors fail before becoming a step
         self._pt("close", fd=fd, path=self.fds[fd].path if fd in self.fds else "?")
         self._ofd(fd)
         self._drop_fd(fd)
@@ -637,6 +645,7 @@ class FakeOS:
     LOCK_SH, LOCK_EX, LOCK_NB, LOCK_UN = 1, 2, 4, 8
 
     def flock(self, fd, op):
+        self._ofd(fd)  # stale / foreign descriptors fail before becoming a step
         self._pt("flock", fd=fd, op=op, path=self.fds[fd].path if fd in self.fds else "?")
         ofd = self._ofd(fd)
         if op & self.LOCK_UN:
